@@ -22,6 +22,7 @@ CONSTANTS
   PauseKeepsRegistered = FALSE
   RejoinPausedNoAvail = FALSE
   ResetSeparate = TRUE
+  JumpToFirstAvailable = FALSE
 SPECIFICATION Spec
 VIEW View
 INVARIANTS C03_NoLostWake C04_BitsTrueWhenCalm
